@@ -310,9 +310,18 @@ func has(l []string, x string) bool {
 // ontoPass runs the product for one scenario. Returns (pairs, pairs where the target held another
 // state, +1 evaluations, complete).
 func ontoPass(sc *scenario, quick bool, rich []target, stop func() bool) (int64, int64, int64, bool) {
-	lim, slack := pick(quick, 2, 3), pick(quick, 0, 1)
-	tdepth := func(k int) int { // triangular: the many deepest states meet the fewer shallow targets
-		if rem := sc.depth - k + slack; rem < lim {
+	lim := pick(quick, 2, 3)
+	// triangular product: the many deepest states meet the fewer shallow targets.
+	// quick: depth-bound states -> the scenario root only, every other state -> all targets at depth <= 2;
+	// thorough: state at depth k -> all targets at depth <= min(3, bound-k).
+	tdepth := func(k int) int {
+		if quick {
+			if k == sc.depth {
+				return 0
+			}
+			return lim
+		}
+		if rem := sc.depth - k; rem < lim {
 			return rem
 		}
 		return lim
@@ -406,7 +415,7 @@ func ontoPass(sc *scenario, quick bool, rich []target, stop func() bool) (int64,
 		td := tdepth(k)
 		for d := 0; d <= td && d < len(tg); d++ {
 			for _, t := range tg[d] {
-				try(t, d <= pick(quick, 1, 2))
+				try(t, d <= 1)
 			}
 		}
 		for j := td + 1; j < k; j++ { // the lagging follower: deeper proper prefixes of s's own history
@@ -575,7 +584,7 @@ func main() {
 	run.Coverage["snapshot_install"] = ontoCov
 	run.Coverage["snapshot_install_pairs"] = ontoPairs
 	run.Coverage["snapshot_install_plus_one_evaluations"] = ontoPlus1
-	run.Coverage["snapshot_install_bound"] = fmt.Sprintf("snapshot of every reachable state at depth k installed (real Restore) onto every reachable state of the same scenario at depth <= min(%d, bound-k+%d), every deeper proper prefix of its own history and %d rich targets; for k <= bound-2 and targets at depth <= %d / prefixes / rich, every alphabet command applied afterwards", pick(quick, 2, 3), pick(quick, 0, 1), len(rich), pick(quick, 1, 2))
+	run.Coverage["snapshot_install_bound"] = "snapshot of every reachable state (depth k) installed with the real Restore onto every reachable state of the same scenario at depth <= " + pick2(quick, "2 (k < bound) / the scenario root only (k = bound)", "min(3, bound-k)") + ", onto every deeper proper prefix of its own history (lagging follower) and onto " + fmt.Sprint(len(rich)) + " rich targets; for k <= bound-2 and targets at depth <= 1 / prefixes / rich, every alphabet command is applied afterwards"
 	run.Coverage["states"] = totalStates
 	run.Coverage["transitions"] = totalTrans
 	run.Coverage["traces_validated_against_impl"] = totalTrans
@@ -593,6 +602,13 @@ func ontoName(names []string) string {
 		return "<fresh FSM>"
 	}
 	return strings.Join(names, ";")
+}
+
+func pick2(q bool, a, b string) string {
+	if q {
+		return a
+	}
+	return b
 }
 
 func pick(q bool, a, b int) int {
